@@ -252,6 +252,7 @@ class Verifier:
             sq.ns["at_state"] = N("spec.seq.at_state", at_state)
             sq.ns["gen_args"] = N("spec.seq.gen_args", gen_args)
         self.base_ns.update({
+            "same": N("same", lambda a, b: it.eq(a, b)),      # value identity (NaN equals NaN), as the native comparison
             "implies": N("implies", implies), "stream_of": N("stream_of", stream_of),
             "nondet_int": N("nondet_int", nondet_int), "nondet_bool": N("nondet_bool", nondet_bool),
             "nondet_bytes": N("nondet_bytes", nondet_bytes), "assume": N("assume", assume),
